@@ -8,7 +8,10 @@ import (
 )
 
 func (core *JApiCore) collectRules() *jerr.JApiError {
-	return core.collectRulesFromDirectives(core.directives)
+	// The rules are collected from the tree after the processing of the PASTE
+	// directives, so the ENUM directive of a pasted MACRO is registered at the
+	// place where it is pasted.
+	return core.collectRulesFromDirectives(core.directivesWithPastes)
 }
 
 func (core *JApiCore) collectRulesFromDirectives(dd []*directive.Directive) *jerr.JApiError {
